@@ -95,7 +95,14 @@ def scalar_yaml(wr, v, path, rng, flow):
         wr.w(str(v))
     elif isinstance(v, float):
         wr.mark(jpath(path), "float")
-        wr.w(fnum(v))
+        t = fnum(v)
+        # YAML floats need no leading zero: `.75`, `-.25` (a third of the fractions below one are written that way)
+        if rng.random() < 0.35:
+            if t.startswith("0."):
+                t = t[1:]
+            elif t.startswith("-0."):
+                t = "-" + t[2:]
+        wr.w(t)
     else:
         style = string_style(v, rng)
         wr.mark(jpath(path), style)
